@@ -7,6 +7,7 @@ package main
 
 import (
 	"encoding/json"
+	"errors"
 	"fmt"
 	"os"
 	"strings"
@@ -18,6 +19,9 @@ import (
 type c06Case struct {
 	Kind, Ctx, Depth, Expect string
 }
+
+// c06NoString is a host object that relies on ObjectImpl for everything: String panics (not implemented)
+type c06NoString struct{ ugo.ObjectImpl }
 
 // c06Err is an error type whose Error method reads a field (a nil *c06Err panics when used)
 type c06Err struct{ msg string }
@@ -52,6 +56,12 @@ func c06Fail(kind string) string {
 		return "q := gopanic(\"struct\")"
 	case "gopanic-nil":
 		return "q := gopanic(undefined)"
+	case "syncmap-get":
+		// the index operation of a lock-protected map panics inside the locked region (the index is a host
+		// object without a String method); the map is used before, so that a repetition needs the lock again
+		return "sm.n = 1; q := sm[bad]"
+	case "syncmap-set":
+		return "sm[bad] = 1"
 	case "throw":
 		return "throw \"t\""
 	case "framelimit":
@@ -82,7 +92,7 @@ func c06Fail(kind string) string {
 
 func c06Script(c c06Case, depth int) string {
 	var sb strings.Builder
-	sb.WriteString("global (gopanic, cbcall, cbcall2, fin)\nparam (a, b)\n")
+	sb.WriteString("global (gopanic, cbcall, cbcall2, fin, sm, bad)\nparam (a, b)\n")
 	sb.WriteString("fail := func() {\n" + c06Fail(c.Kind) + "\nreturn \"nofail\"\n}\n")
 	body := ""
 	switch c.Ctx {
@@ -207,7 +217,8 @@ func init() {
 				}
 				for ai, as := range argsets {
 					runs++
-					g := ugo.Map{"gopanic": gopanic, "cbcall": hostCall(true), "cbcall2": hostCall(false), "fin": ugo.False}
+					g := ugo.Map{"gopanic": gopanic, "cbcall": hostCall(true), "cbcall2": hostCall(false), "fin": ugo.False,
+						"sm": &ugo.SyncMap{Value: ugo.Map{"k": ugo.Int(1)}}, "bad": &c06NoString{}}
 					vm := ugo.NewVM(bc).SetRecover(true)
 					type res struct {
 						ret   ugo.Object
@@ -244,6 +255,33 @@ func init() {
 						continue
 					}
 					t.Stop()
+					if os.Getenv("VH_C06_OBS") != "" {
+						// C14 compares the outcome of the same function called in the script and called from Go
+						obs := ""
+						switch {
+						case r.panic != nil:
+							obs = "panic"
+						case r.err != nil:
+							// the name of the uGO error, however the Go error is wrapped on its way out of Run
+							name := ""
+							var re *ugo.RuntimeError
+							var ue *ugo.Error
+							if errors.As(r.err, &re) && re.Err != nil {
+								name = re.Err.Name
+							} else if errors.As(r.err, &ue) {
+								name = ue.Name
+							}
+							if name == "" {
+								name = "error"
+							}
+							obs = "err:" + name
+						case r.ret == nil:
+							obs = "ret:nil"
+						default:
+							obs = "ret:" + r.ret.TypeName() + ":" + r.ret.String()
+						}
+						out.put(N{"kind": "obs", "case": c, "depth": d, "args": ai, "obs": obs, "src": src})
+					}
 					bad := ""
 					switch {
 					case r.panic != nil:
